@@ -321,3 +321,26 @@ func (e *Engine) havocArgs(st *State, args []Val) {
 		}
 	}
 }
+
+// isOpaque: the unit hides the definition of this spec function (opt opaque=a,b).
+func (e *Engine) isOpaque(name string) bool {
+	if e.unit == nil || e.unit.C == nil {
+		return false
+	}
+	for _, n := range strings.Split(e.unit.C.Opts["opaque"], ",") {
+		if strings.TrimSpace(n) == name {
+			return true
+		}
+	}
+	return false
+}
+
+// hasNonConstFun: does the SMT text declare an uninterpreted function with arguments?
+func hasNonConstFun(s string) bool {
+	for _, l := range strings.Split(s, "\n") {
+		if strings.HasPrefix(l, "(declare-fun ") && !strings.Contains(l, " () ") {
+			return true
+		}
+	}
+	return false
+}
